@@ -288,6 +288,7 @@ func shadowHistory(rng *rand.Rand) (*jBundle, []func() string) {
 		enumDecl("Level", "LOW", "HIGH"),
 		objDecl("Early", fld("title", tScalar(kString)), fld("anchor", tRef(kObject, "other.v1.Anchor", "other.v1.Anchor"))),
 		objDecl("Later", fld("mine", tRef(kObject, "Foo", "local.v1.Foo")), fld("mines", tArr(tRef(kObject, "Foo", "local.v1.Foo"))), fld("level", tRef(kEnum, "Level", "local.v1.Level"))),
+		objDecl("Mixed", fld("item", &jT{Kind: kObject, Inline: &jDecl{Kind: kObject, Fields: []*jF{fld("inner", tScalar(kString))}}}), fld("level", &jT{Kind: kEnum, Inline: &jDecl{Kind: kEnum, Options: []string{"UP", "DOWN"}}})),
 		{Service: &jService{Name: "Things", BasePath: "/local/v1", Methods: []*jMethod{
 			{Name: "First", HTTPMethod: "POST", Path: "/first", Req: []*jF{fld("given", tRef(kObject, "Item", "local.v1.Item"))}, HasRes: true, Res: []*jF{fld("first", tRef(kObject, "Item", "local.v1.Item")), fld("foo", tRef(kObject, "Foo", "local.v1.Foo"))}},
 			{Name: "Second", HTTPMethod: "GET", Path: "/second", HasRes: true, Res: []*jF{fld("item", tRef(kObject, "Item", "local.v1.Item"))}}}}},
@@ -299,7 +300,8 @@ func shadowHistory(rng *rand.Rand) (*jBundle, []func() string) {
 		return &jT{Kind: kObject, Inline: &jDecl{Kind: kObject, Fields: []*jF{fld("inner", tScalar(kString))}}}
 	}
 	early, later := main.Elems[3].Decl, main.Elems[4].Decl
-	svc, topic := main.Elems[5].Service, main.Elems[6].Topic
+	mixed := main.Elems[5].Decl
+	svc, topic := main.Elems[6].Service, main.Elems[7].Topic
 	edits := []func() string{
 		func() string {
 			early.Fields = append(early.Fields, fld("theirs", tRef(kObject, "other.v1.Foo", "other.v1.Foo")))
@@ -330,6 +332,16 @@ func shadowHistory(rng *rand.Rand) (*jBundle, []func() string) {
 			return "shadow-foreign-in-response: append field theirs object:other.v1.Item to response of Second"
 		},
 	}
+	edits = append(edits,
+		func() string {
+			// the object already nests an inline Item (from its field item); now it also refers to the package-level Item
+			mixed.Fields = append(mixed.Fields, fld("linked", tRef(kObject, "Item", "local.v1.Item")))
+			return "shadow-ref-after-inline: append field linked object:Item to object Mixed, which nests an inline Item"
+		},
+		func() string {
+			mixed.Fields = append(mixed.Fields, fld("linkedLevel", tRef(kEnum, "Level", "local.v1.Level")))
+			return "shadow-ref-after-inline: append field linkedLevel enum:Level to object Mixed, which nests an inline Level"
+		})
 	rng.Shuffle(len(edits), func(i, j int) { edits[i], edits[j] = edits[j], edits[i] })
 	return b, edits
 }
